@@ -8,7 +8,7 @@ pub mod pool;
 pub mod report;
 
 pub use report::{Args, Report, Tier, Violation};
-pub use serde_json::{json, Map, Value};
+pub use serde_json::{from_str, json, Map, Value};
 
 use std::cell::RefCell;
 use std::panic::{self, AssertUnwindSafe};
